@@ -259,9 +259,9 @@ func maintainBulkCache() {
 	var st syscall.Statfs_t
 	low := false
 	if err := syscall.Statfs(VerifRoot, &st); err == nil {
-		low = st.Bavail*uint64(st.Bsize) < 40<<30
+		low = st.Bavail*uint64(st.Bsize) < 60<<30
 	}
-	if n >= 6 || low {
+	if n >= 3 || low {
 		_ = os.RemoveAll(BulkCache)
 		n = 0
 	}
